@@ -94,7 +94,14 @@ type Ghost struct {
 	Unit *Unit
 }
 
+// Discipline: closures that (transitively) call Callee may only be used as the argument of Registrar.
+type Discipline struct {
+	Callee    string
+	Registrar string
+}
+
 type Unit struct {
+	Disciplines []Discipline
 	Name     string
 	Pkg      string
 	PkgName  string
@@ -129,7 +136,7 @@ type ContractSet struct {
 	All       []*Contract
 }
 
-var kwRe = regexp.MustCompile(`^(unit|ghost|spec|extern|func|lemma|protocol|apply|requires|ensures|modifies|loop|tolerates|assert|tags|known|pure|nodefault|fresh|axiom|opt)\b`)
+var kwRe = regexp.MustCompile(`^(unit|ghost|spec|extern|func|lemma|protocol|apply|discipline|requires|ensures|modifies|loop|tolerates|assert|tags|known|pure|nodefault|fresh|axiom|opt)\b`)
 
 func parseExprClause(text, file string, line int) (*Clause, error) {
 	t := strings.ReplaceAll(text, "==>", "&& _IMPLIES_ &&") // placeholder, fixed below
@@ -480,6 +487,12 @@ func (cs *ContractSet) parseFile(file, relDir string) error {
 			sf.Rec = regexp.MustCompile(`\b` + regexp.QuoteMeta(sf.Name) + `\(`).MatchString(body)
 			unit.Specs[sf.Name] = sf
 			unit.SpecList = append(unit.SpecList, sf)
+		case "discipline":
+			f := strings.Fields(s.rest)
+			if unit == nil || len(f) != 4 || f[0] != "closure-calling" || f[2] != "only-arg-of" {
+				return fmt.Errorf("%s:%d: discipline closure-calling <callee> only-arg-of <registrar>", file, s.line)
+			}
+			unit.Disciplines = append(unit.Disciplines, Discipline{f[1], f[3]})
 		case "apply":
 			k := strings.Index(s.rest, ":")
 			if k < 0 || unit == nil {
